@@ -40,8 +40,18 @@ package validate
 //@ spec func sub(s map[types.EntityType]struct{}, s2 map[types.EntityType]struct{}) bool = forall t types.EntityType :: { has(s2, t) } has(s, t) ==> has(s2, t)
 //@ axiom unseen_nonneg: forall all map[types.EntityType]resolved.Entity, s map[types.EntityType]struct{} :: { unseen(all, s) } unseen(all, s) >= 0
 //@ axiom unseen_add: forall all map[types.EntityType]resolved.Entity, s map[types.EntityType]struct{}, s2 map[types.EntityType]struct{}, t types.EntityType :: { unseen(all, s), unseen(all, s2), has(s2, t) } (has(all, t) && !has(s, t) && has(s2, t) && sub(s, s2)) ==> unseen(all, s2) < unseen(all, s)
+// What the walk computes (C15: `e1 in e2` is typed `false` only if no entity of e1's type can ever be a
+// member of an entity of e2's type, so a policy the validator folds away cannot be satisfied at run time).
+// descT(E, a, b): b is a proper ancestor type of a in the memberOf hierarchy of the schema's entity map E (transitive closure of
+// "b is listed in a's ParentTypes"); its induction principle is the least-fixed-point axiom descT_closed:
+// a set of types that contains a, whose members' parents all lie in the set and none of which lists y,
+// witnesses that y is not an ancestor of a.
+//@ spec func descT(E map[types.EntityType]resolved.Entity, a types.EntityType, b types.EntityType) bool
+//@ axiom descT_step: forall E map[types.EntityType]resolved.Entity, a types.EntityType, i int :: { E[a].ParentTypes[i] } (has(E, a) && 0 <= i && i < len(E[a].ParentTypes)) ==> descT(E, a, E[a].ParentTypes[i])
+//@ axiom descT_trans: forall E map[types.EntityType]resolved.Entity, a types.EntityType, i int, c types.EntityType :: { descT(E, E[a].ParentTypes[i], c) } (has(E, a) && 0 <= i && i < len(E[a].ParentTypes) && descT(E, E[a].ParentTypes[i], c)) ==> descT(E, a, c)
+//@ axiom descT_closed: forall E map[types.EntityType]resolved.Entity, C map[types.EntityType]struct{}, y types.EntityType, a types.EntityType :: { has(C, a), descT(E, a, y) } (has(C, a) && (forall x types.EntityType, i int :: (has(C, x) && has(E, x) && 0 <= i && i < len(E[x].ParentTypes)) ==> (E[x].ParentTypes[i] != y && has(C, E[x].ParentTypes[i])))) ==> !descT(E, a, y)
 //@ func (Validator) isEntityDescendantFrom
-//@   props C16
+//@   props C16 C15
 //@   safety
 //@   requires v.schema != nil && !isnil(seen)
 //@   modifies seen
@@ -49,9 +59,28 @@ package validate
 //@   results r
 //@   ensures grows: sub(old(seen), seen)
 //@   ensures marks: has(seen, childType)
+//@   ensures sound: r ==> descT(v.schema.Entities, childType, ancestorType)
+//@   ensures expanded: !r ==> (forall a types.EntityType, i int :: (has(seen, a) && !has(old(seen), a) && has(v.schema.Entities, a) && 0 <= i && i < len(v.schema.Entities[a].ParentTypes)) ==> (v.schema.Entities[a].ParentTypes[i] != ancestorType && has(seen, v.schema.Entities[a].ParentTypes[i])))
 //@   loop 1
 //@     invariant !isnil(seen) && has(seen, childType) && (len(entity.ParentTypes) > 0 ==> has(v.schema.Entities, childType))
 //@     invariant sub(old(seen), seen)
+//@     invariant forall a types.EntityType, i int :: (has(seen, a) && !has(old(seen), a) && a != childType && has(v.schema.Entities, a) && 0 <= i && i < len(v.schema.Entities[a].ParentTypes)) ==> (v.schema.Entities[a].ParentTypes[i] != ancestorType && has(seen, v.schema.Entities[a].ParentTypes[i]))
+//@     invariant forall j int :: (0 <= j && j < $i) ==> (entity.ParentTypes[j] != ancestorType && has(seen, entity.ParentTypes[j]))
+// A fresh visited set per query: the answer is exactly "ancestorType is a proper ancestor type".
+//@ func (Validator) isEntityDescendant
+//@   props C15
+//@   requires v.schema != nil
+//@   results r
+//@   ensures exact: r == descT(v.schema.Entities, childType, ancestorType)
+//@ func (Validator) anyEntityDescendantOf
+//@   props C15
+//@   requires v.schema != nil
+//@   results r
+//@   ensures exact: r == (exists i int, j int :: 0 <= i && i < len(lhs.elements) && 0 <= j && j < len(rhs.elements) && (lhs.elements[i] == rhs.elements[j] || descT(v.schema.Entities, lhs.elements[i], rhs.elements[j])))
+//@   loop 1
+//@     invariant forall i int, j int :: (0 <= i && i < $i && 0 <= j && j < len(rhs.elements)) ==> (lhs.elements[i] != rhs.elements[j] && !descT(v.schema.Entities, lhs.elements[i], rhs.elements[j]))
+//@   loop 1.1
+//@     invariant forall j int :: (0 <= j && j < $i) ==> (lt != rhs.elements[j] && !descT(v.schema.Entities, lt, rhs.elements[j]))
 
 // Capabilities (attributes known to be present after a `has` guard) are a set:
 // a capability survives `||` / the join of two branches only if both sides
